@@ -523,6 +523,7 @@ def run_contract_paths(program, registry, con, active_cases=None, prefix=None, f
             thunk(ctx)
         finally:
             ctx.opaque_apps = list(ops.APPLICATIONS)
+    engine.path_local_unsupported = frontier_depth is None
     paths = engine.run(wrapped, start=prefix)
     if frontier_depth is not None:
         # complete paths shorter than the frontier are their own sub-trees
@@ -968,6 +969,9 @@ def verify_contract(program, registry, con, timeout_ms=None, active_cases=None, 
         res["error"] = traceback.format_exc()
         res["wall_s"] = time.time() - t0
         return res
+    if engine.unsupported_paths:
+        res["status"] = "partial"
+        res["error"] = "%s [on %d path(s); the other paths were verified]" % (engine.unsupported_paths[0], len(engine.unsupported_paths))
     res["paths"] = engine.stats.paths
     res["dead_paths"] = engine.stats.dead_paths
     res["branch_queries"] = engine.stats.branch_queries
